@@ -17,7 +17,9 @@ From Gnmi Require Subscribe.SubModel Pipeline.PipelineModel Stream.StreamLts Cac
 From Gnmi Require Import Value.ValueModel Cache.CacheModel.
 From Gnmi Require Stream.StreamProofs.
 From Gnmi Require Import Glue.GluePath Glue.GlueMatch Glue.GlueQueue Glue.GlueTree Glue.GlueCacheSub
-  Glue.GlueCacheStream Glue.GlueCachePipe.
+  Glue.GlueCacheStream Glue.GlueCachePipe Glue.GlueMulti Glue.GlueHandle.
+From Gnmi Require Coalesce.QueueLive Cache.MultiCache Total.IngestModel Total.StreamModel
+  CTree.CTreeCheck CTree.CTreeHandle.
 Open Scope string_scope.
 Open Scope list_scope.
 
@@ -682,3 +684,163 @@ Theorem Glue_pipe_root_delete_agree :
   forall name r, del_notif (PipelineModel.root_delete name r) = delete_noti name r 0 ["*"].
 Proof. exact pipe_root_delete_agree. Qed.
 Print Assumptions Glue_pipe_root_delete_agree.
+
+(** * 5. Round 5v: MultiCache's subscriber layer (C14/C15), StreamModel (C12),
+      the handle layer (C09), fair runs of the queue (C11) *)
+
+(** ** MultiCache.mmatch / offered / MUnsub (authoritative: MatchModel, C06) *)
+
+Theorem Glue_multi_mmatch_eq :
+  forall q p : path, MultiCache.mmatch q p = compat q p.
+Proof. exact multi_mmatch_eq. Qed.
+Print Assumptions Glue_multi_mmatch_eq.
+
+(** [offered T q n] is the number of calls the real trie walk makes on a client
+    registered with exactly [T :: q] (any well-formed trie, in particular every
+    trie reachable by registrations and removals). *)
+Theorem Glue_multi_offered_is_trie_offer :
+  forall b c T q (n : notif),
+    registered_exactly b c [T :: q] ->
+    (if MultiCache.offered T q n then 1%nat else 0%nat) =
+    count_occ Nat.eq_dec (server_update b (n_prefix n) (map u_path (n_upd n)) (map Some (n_del n))) c.
+Proof. exact multi_offered_is_trie_offer. Qed.
+Print Assumptions Glue_multi_offered_is_trie_offer.
+
+(** MUnsub: after the removal closure the real trie offers the client nothing
+    (as MultiCache's cancelled subscriber receives nothing). *)
+Theorem Glue_multi_unsub_no_offer :
+  forall b c T q prefix paths,
+    registered_exactly b c [T :: q] ->
+    count_occ Nat.eq_dec (update_notification (remove_root (T :: q) c b) prefix paths) c = 0%nat.
+Proof. exact multi_unsub_no_offer. Qed.
+Print Assumptions Glue_multi_unsub_no_offer.
+
+(** ** isTargetDelete: three copies, one predicate *)
+
+Theorem Glue_itd_stream_eq_multi :
+  forall n : IngestModel.notif,
+    StreamModel.is_target_delete n = MultiCache.is_target_delete (ing_notif n).
+Proof. exact itd_stream_eq_multi. Qed.
+Print Assumptions Glue_itd_stream_eq_multi.
+
+Theorem Glue_itd_sub_eq_multi :
+  forall n : SubModel.noti,
+    noti_wf n -> SubModel.is_target_delete n = MultiCache.is_target_delete (sub_notif n).
+Proof. exact itd_sub_eq_multi. Qed.
+Print Assumptions Glue_itd_sub_eq_multi.
+
+(** what it says on the notifications the cache produces: Cache.Remove's
+    announcement is a whole-target delete (CacheModel's and SubModel's, which
+    are the same notification) ... *)
+Theorem Glue_itd_remove :
+  forall c now name,
+    Forall (fun x => MultiCache.is_target_delete x = true) (snd (cache_remove c now name)).
+Proof. exact itd_remove. Qed.
+Print Assumptions Glue_itd_remove.
+
+Theorem Glue_itd_sub_remove :
+  forall t now,
+    SubModel.is_target_delete (SubModel.target_delete_noti t now) = true /\
+    sub_notif (SubModel.target_delete_noti t now) = delete_noti t "" now ["*"].
+Proof. exact itd_sub_remove. Qed.
+Print Assumptions Glue_itd_sub_remove.
+
+(** ... Target.Reset's per-root delete is one only for the empty root name, and
+    nothing without exactly one delete is. *)
+Theorem Glue_itd_reset_root :
+  forall name r now,
+    MultiCache.is_target_delete (delete_noti name r now ["*"]) = String.eqb r "".
+Proof. exact itd_reset_root. Qed.
+Print Assumptions Glue_itd_reset_root.
+
+Theorem Glue_itd_has_delete :
+  forall n : notif, MultiCache.is_target_delete n = true -> exists d, n_del n = [d].
+Proof. exact itd_has_delete. Qed.
+Print Assumptions Glue_itd_has_delete.
+
+(** sendStreamingResults over the feed of one call: MultiCache's on the image
+    of a SubModel feed is SubModel's (no ACL, the one query [T :: q]). *)
+Theorem Glue_multi_stream_feed_eq :
+  forall (allow : string -> string -> bool) T q feed,
+    Forall noti_wf feed ->
+    let R := SubModel.stream_feed allow SubModel.NoACL (negb (String.eqb T "*")) [T :: q] feed in
+    MultiCache.stream_feed T q (map sub_notif feed) = (map resp_conv (fst R), snd R).
+Proof. exact multi_stream_feed_eq. Qed.
+Print Assumptions Glue_multi_stream_feed_eq.
+
+(** ** StreamLts's leaf handles against the handle layer (CTreeHandle, C09)
+
+    The handle-layer tree is the TIMESTAMP projection [ts_tree tr] of the ctree
+    related to StreamLts by [Rs] (the layer's conditional delete tests the stored
+    number, StreamLts's tests the timestamp). *)
+
+Theorem Glue_stream_hold_at_enqueue :
+  forall st name tr k rest l sl n s,
+    StreamProofs.GInv st -> Rs st name tr ->
+    StreamLts.tlookup (name :: k :: rest) (StreamLts.st_tree st) = Some l ->
+    CTreeHandle.hmstep (ts_tree tr, (sl, n)) (CTreeHandle.HHold s (k :: rest)) =
+      ((ts_tree tr, (CTreeHandle.sset sl s (CTreeHandle.HLive (k :: rest)), n)), CTreeCheck.RBool true) /\
+    hrel st name l (CTreeHandle.HLive (k :: rest)).
+Proof. exact stream_hold_at_enqueue. Qed.
+Print Assumptions Glue_stream_hold_at_enqueue.
+
+(** one [write] -- any operation, any target, any outcome -- is the
+    corresponding handle-layer steps: trees stay related, the slot evolves as
+    the handle does *)
+Theorem Glue_stream_write_handle_step :
+  forall h st w o st' res name tr l slot n,
+    StreamProofs.GInv st -> Rs st name tr -> hrel st name l slot ->
+    StreamLts.write h st w o = Some (st', res) ->
+    exists tr' slot',
+      hrun (ts_tree tr, ([slot], n)) (hops_of name o res) =
+        (ts_tree tr', ([slot'], (n + List.length (hops_of name o res))%nat)) /\
+      Rs st' name tr' /\ hrel st' name l slot'.
+Proof. exact stream_write_handle_step. Qed.
+Print Assumptions Glue_stream_write_handle_step.
+
+Theorem Glue_stream_read_is_handle_value :
+  forall st name tr l h n d P v ts,
+    StreamProofs.GInv st -> Rs st name tr -> hrel st name l h ->
+    StreamLts.build st (StreamLts.ILeaf l) d = Some (StreamLts.RUpd P v ts d) ->
+    CTreeHandle.hmstep (ts_tree tr, ([h], n)) (CTreeHandle.HValue 0) =
+      ((ts_tree tr, ([h], n)), CTreeCheck.RKind (CTreeCheck.KLeaf ts)).
+Proof. exact stream_read_is_handle_value. Qed.
+Print Assumptions Glue_stream_read_is_handle_value.
+
+(** enqueue, ANY sequence of writes, send: what the sender reads is [HValue] of
+    the handle taken at enqueue time after the corresponding script (live: the
+    current timestamp; detached by a delete: the last one) *)
+Theorem Glue_stream_read_after_writes :
+  forall h name st hs st' tr k rest l n d P v ts,
+    StreamProofs.GInv st -> Rs st name tr ->
+    StreamLts.tlookup (name :: k :: rest) (StreamLts.st_tree st) = Some l ->
+    wrun h name st hs st' -> StreamProofs.GInv st' ->
+    StreamLts.build st' (StreamLts.ILeaf l) d = Some (StreamLts.RUpd P v ts d) ->
+    snd (CTreeHandle.hmstep
+           (hrun (fst (CTreeHandle.hmstep (ts_tree tr, ([], n)) (CTreeHandle.HHold 0 (k :: rest)))) hs)
+           (CTreeHandle.HValue 0))
+    = CTreeCheck.RKind (CTreeCheck.KLeaf ts).
+Proof. exact stream_read_after_writes. Qed.
+Print Assumptions Glue_stream_read_after_writes.
+
+(** a detached handle is inert (both components of its content) *)
+Theorem Glue_stream_handle_value_kept :
+  forall h st w o st' res name l p e x,
+    StreamProofs.GInv st -> hrel st name l (CTreeHandle.HStale p e x) ->
+    StreamLts.write h st w o = Some (st', res) ->
+    nth_error (StreamLts.st_leaves st') l = nth_error (StreamLts.st_leaves st) l.
+Proof. exact stream_handle_value_kept. Qed.
+Print Assumptions Glue_stream_handle_value_kept.
+
+(** ** fair runs of the queue (QueueLive, C11): every item of a StreamLts queue
+       is eventually popped *)
+Theorem Glue_stream_queue_item_eventually_delivered :
+  forall (enc : StreamLts.item -> item) run lab,
+    run 0%nat = l_init -> QueueLive.is_run lstep run lab ->
+    QueueLive.wfair lstep run lab cons_label ->
+    (forall n, QueueLive.wfair lstep run lab (fun l => l = LP n)) ->
+    forall k sq it,
+      q_abs (l_q (run k)) = abs_q enc sq -> In it (map fst sq) ->
+      exists j, (k <= j)%nat /\ QueueLive.delivers run lab j (enc it).
+Proof. exact stream_queue_item_eventually_delivered. Qed.
+Print Assumptions Glue_stream_queue_item_eventually_delivered.
